@@ -19,6 +19,21 @@ def fsc : Text → Bool
   | [] => false
   | c :: l => if c == cColon then true else if c == cSlash then false else fsc l
 
+/-- the path begins with `//` -/
+def startsSS (l : Text) : Bool :=
+  match l with
+  | a :: b :: _ => a == cSlash && b == cSlash
+  | _ => false
+
+/-- the normalised first segment could be misread in this context (empty where `//` would start an
+authority or the path would turn absolute; containing `:` at the very start of a relative reference) -/
+def needsShield (fa atStart : Bool) (p : Text) : Bool :=
+  match nsegs p with
+  | first :: _ =>
+    (first.isEmpty && (Path.is_relative p || !fa || (nsegs p).length == 1))
+      || (Path.is_relative p && atStart && Parse.first_segment_contains_colon first)
+  | [] => false
+
 /-- the text of a relative path with the given segments, as `push` writes it at the very start of a
 reference: `./` in front of a first segment that is empty or contains `:` -/
 def renderRel (L : List Text) : Text :=
@@ -82,5 +97,24 @@ def relClass (a b : Text) : String :=
     else if sdCond a b then "same-document"
     else if hhd then (if B.authority.isSome then "class-authority" else "class-noauth")
     else "oracle-only"
+
+/-- the theorem of `Props/C06.lean` whose hypotheses the pair meets (`oracle-only-…`: none; `f15`:
+the open finding) -/
+def resolveClass (base r : Text) : String :=
+  let B := split base
+  let R := split r
+  if R.authority.isSome then "with-authority"                       -- resolve_with_authority
+  else if R.scheme.isSome then
+    if needsShield false false R.path then "oracle-only-scheme-shield" else "with-scheme"
+  else if R.path.isEmpty then "empty-path"                          -- resolve_empty_path
+  else if isAbs R.path then
+    if B.authority.isSome then "absolute-path"                      -- resolve_absolute
+    else if needsShield false false R.path then "oracle-only-absolute-shield"
+    else "absolute-path-noauth"                                     -- resolve_absolute_no_authority
+  else if Findings.f15 base r then "f15"
+  else if B.authority.isSome then "merge-authority"                 -- resolve_relative_authority
+  else if isAbs B.path then
+    if startsSS (resolveSpec base r).path then "oracle-only-ambiguous" else "merge-noauth-absolute"
+  else if isAbs (resolveSpec base r).path then "oracle-only-ambiguous" else "merge-relative-base"
 
 end IrefVerif.Model
